@@ -20,6 +20,7 @@ def nontrivial(req, obs):
 def finding_key(req, obs, detail):
     d = (detail or "")[5:]
     d = re.sub(r":\d+:", ":", d)          # panic line numbers move with unrelated edits
+    d = re.sub(r"panic \S*?((?:msl|ir|typer|parser|formatter|preprocess|text|ast|hlsl)/src/)", r"panic \1", d)
     first = d.split(" ## ")[0]
     return f"{req} :: {first}"
 
@@ -36,9 +37,9 @@ def _show(f, gs, fs, entry):
 
 
 def shrink(req):
-    f, gs, fs = _parse(req)
-    if f[0] != "C02.thread":
+    if not req.startswith("C02.thread\t") or len(req.split("\t")) != 4:
         return
+    f, gs, fs = _parse(req)
     entry = f[3]
     # drop one item
     for i, fd in enumerate(fs):
